@@ -638,11 +638,15 @@ def shadow_scenario(rng, sc):
     if rng.random() < 0.75:
         sc.update(domain=True, style="shadow_one_call", calls=[{"vars": list(vars_all), "ests": list(ests_all)}])
     else:
-        # several calls, any distribution: correspondence with the model only
+        # several calls: the customs named like built-ins all in the FIRST call (so that no
+        # built-in column is computed before the custom value exists: otherwise a column fed
+        # back from the earlier call contradicts the custom value — outside `FeedbackOK`, and
+        # outside what the driver's abbreviated identities can express); correspondence only
         n = rng.choice((2, 3))
         calls = [{"vars": [], "ests": list(ests_all)} for _ in range(n)]
         for v in vars_all:
-            calls[rng.randrange(n)]["vars"].append(v)
+            shadow = isinstance(v, dict) and v["dict"][0][0] in SHADOW
+            calls[0 if shadow else rng.randrange(n)]["vars"].append(v)
         sc.update(domain=False, style="shadow_free", calls=calls)
 
 
